@@ -264,12 +264,44 @@ Definition m_par (term : tag) (chain : list node) (partitions : nat) : obs :=
   if has_sentinel chain && fp_par chain partitions then OPanic
   else obs_of (exec_par id_sh term chain partitions).
 
-(* no node of the chain iterates a HashMap: the real rows come in a deterministic order *)
-Definition chain_exact (c : list node) : bool :=
-  forallb (fun n => match n with
-                    | NB (BSource _) | NB (BStateless _) | NB (BMaterialized _ _) => true
-                    | _ => false
-                    end) c.
+(* How two results of a chain are compared (Canon.cmp_mode), decided from the chain's node kinds
+   exactly as Canon.cmp_of decides it from a program's steps:
+   CExact : no node iterates a hash map (Source / Stateless / Materialized / a global combine whose
+            output is not a drained HashSet);
+   CRows  : some node does (GroupByKey, CombineValues, a DistinctSet combine): multiset of rows,
+            each row compared exactly;
+   CDeep  : some list INSIDE the rows follows a map's iteration order: a GroupByKey downstream of a
+            hash node, or the output list of a DistinctSet combiner.
+   A synthetic chain is classified from its JSON description (the combiner ids are visible there);
+   markers and extra sources are kept conservative (they do not reset "unordered"). *)
+Inductive nkind := NKPlain | NKGbk | NKHash | NKDistinct.
+Definition is_distinct (c : cid) : bool := match c with CDistinct => true | _ => false end.
+Definition dec_nkind (j : J) : option nkind :=
+  match j with
+  | JL [JS t] => if tag_is t "gbk" then Some NKGbk else None
+  | JL [JS t; _] => if tag_is t "st" then Some NKPlain else None
+  | JL [JS t; a; _] =>
+      if tag_is t "src" then Some NKPlain else if tag_is t "mat" then Some NKPlain
+      else if tag_is t "cv" then
+        option_map (fun c => if is_distinct c then NKDistinct else NKHash) (dec_cid a)
+      else None
+  | JL [JS t; a; _; _] =>
+      if tag_is t "cg" then
+        option_map (fun c => if is_distinct c then NKDistinct else NKPlain) (dec_cid a)
+      else None
+  | _ => None
+  end.
+Definition nk_hash (k : nkind) : bool := match k with NKPlain => false | _ => true end.
+Fixpoint nk_lists_arbitrary (unord : bool) (ks : list nkind) : bool :=
+  match ks with
+  | [] => false
+  | k :: r =>
+      (match k with NKGbk => unord | NKDistinct => true | _ => false end)
+      || nk_lists_arbitrary (unord || nk_hash k) r
+  end.
+Definition mode_of_kinds (ks : list nkind) : cmp_mode :=
+  if negb (existsb nk_hash ks) then CExact
+  else if nk_lists_arbitrary false ks then CDeep else CRows.
 
 (* ------------------------------------------------------------------ observed data *)
 Record opinfo := { oi_kp : bool; oi_vo : bool; oi_rs : bool; oi_cost : nat }.
@@ -340,8 +372,8 @@ Fixpoint mid_mats (i : nat) (c : list node) : list (nat * tag * list val) :=
   end.
 
 (* the four runs: [seq optimised; seq literal; par optimised; par literal] *)
-Definition execs_agree (term : tag) (raw : list node) (parts : nat) (os : list obs) : bool :=
-  let ex := chain_exact raw in
+Definition execs_agree (ex : cmp_mode) (term : tag) (raw : list node) (parts : nat) (os : list obs)
+  : bool :=
   let opt := optimise raw in
   match os with
   | [so; sl; po; pl] =>
@@ -351,21 +383,22 @@ Definition execs_agree (term : tag) (raw : list node) (parts : nat) (os : list o
   end.
 
 (* markers: the observed value of each prefix (real sequential engine, literal) *)
-Fixpoint prefixes_agree (raw : list node) (ms : list (nat * tag * list val)) (os : list obs) : bool :=
+Fixpoint prefixes_agree (pm : nat -> cmp_mode) (raw : list node) (ms : list (nat * tag * list val))
+         (os : list obs) : bool :=
   match ms, os with
   | [], [] => true
   | (i, t, _) :: ms', o :: os' =>
       let pre := firstn i raw in
-      obs_agree (chain_exact pre) (m_seq t pre) o && prefixes_agree raw ms' os'
+      obs_agree (pm i) (m_seq t pre) o && prefixes_agree pm raw ms' os'
   | _, _ => false
   end.
 (* a marker is consistent when its payload is the (observed) value of its prefix *)
-Fixpoint markers_consistent (raw : list node) (ms : list (nat * tag * list val)) (os : list obs)
-  : bool :=
+Fixpoint markers_consistent (pm : nat -> cmp_mode) (ms : list (nat * tag * list val))
+         (os : list obs) : bool :=
   match ms, os with
   | [], [] => true
   | (i, _, pl) :: ms', o :: os' =>
-      obs_agree (chain_exact (firstn i raw)) (OOk pl) o && markers_consistent raw ms' os'
+      obs_agree (pm i) (OOk pl) o && markers_consistent pm ms' os'
   | _, _ => false
   end.
 
@@ -373,15 +406,15 @@ Fixpoint markers_consistent (raw : list node) (ms : list (nat * tag * list val))
    With a non-terminal marker the literal chain is not a meaningful reference unless the marker is
    consistent and of the terminal row type (else the sequential engine answers "terminal type
    mismatch"); the parallel engine refuses every literal chain that contains a marker. *)
-Definition sem_prop (term : tag) (raw : list node) (os : list obs) (pre : list obs) : bool :=
-  let ex := chain_exact raw in
+Definition sem_prop (ex : cmp_mode) (pm : nat -> cmp_mode) (term : tag) (raw : list node)
+           (os : list obs) (pre : list obs) : bool :=
   let ms := mid_mats 0 raw in
   match os with
   | [so; sl; po; pl] =>
       match ms with
       | [] => obs_agree ex sl so && obs_agree ex pl po
       | _ =>
-          if markers_consistent raw ms pre
+          if markers_consistent pm ms pre
              && forallb (fun m => Nat.eqb (snd (fst m)) term) ms
           then obs_agree ex sl so
           else true
@@ -421,12 +454,12 @@ Definition dec_opinfos (j : J) : option (list opinfo) :=
 
 (* common part of both kinds: out = ["ok", descs, opinfo, execs, extra] *)
 Record common := { cm_agree : bool; cm_struct : bool; cm_reorder_ok : bool; cm_class : bool }.
-Definition judge_common (term : tag) (raw : list node) (parts : nat)
+Definition judge_common (ex : cmp_mode) (term : tag) (raw : list node) (parts : nat)
            (ds : list (list ndesc)) (ois : list opinfo) (os : list obs) : common :=
   let ru := map op_uid (chain_ops raw) in
   let cls := in_reorder_class raw in
   {| cm_agree := descs_agree ru (passes raw) ds && opinfos_agree (chain_ops raw) ois
-                 && execs_agree term raw parts os;
+                 && execs_agree ex term raw parts os;
      cm_struct := struct_legal ds;
      cm_reorder_ok := (no_reorder_raw ds || reorders_alone raw) && (no_reorder_fused ds || cls);
      cm_class := cls |}.
@@ -535,17 +568,20 @@ Definition check_C03 (kind : string) (input output : J) : verdict :=
     match input, output with
     | JL [jt; JL jnodes; jp], JL [JS ok; jd; jo; je; JL [jx; jexp]] =>
         match dec_tagname jt, dec_nodes 0 jnodes, dec_nat jp,
-              dec_descs jd, dec_opinfos jo, dec_obss je, dec_obss jx, dec_strs jexp with
-        | Some term, Some raw, Some parts, Some ds, Some ois, Some os, Some pre, Some exp =>
+              dec_descs jd, dec_opinfos jo, dec_obss je, dec_obss jx, dec_strs jexp,
+              omap dec_nkind jnodes with
+        | Some term, Some raw, Some parts, Some ds, Some ois, Some os, Some pre, Some exp, Some ks =>
             if tag_is ok "ok" then
-              let c := judge_common term raw parts ds ois os in
+              let ex := mode_of_kinds ks in
+              let pm := fun i => mode_of_kinds (firstn i ks) in
+              let c := judge_common ex term raw parts ds ois os in
               finish c
-                     (prefixes_agree raw (mid_mats 0 raw) pre
+                     (prefixes_agree pm raw (mid_mats 0 raw) pre
                       && strs_eqb (map kind_name (explain (optimise raw))) exp)
                      (strs_eqb (map ndesc_name (optimised_desc ds)) exp)
-                     (sem_prop term raw os pre)
+                     (sem_prop ex pm term raw os pre)
             else malformed
-        | _, _, _, _, _, _, _, _ => malformed
+        | _, _, _, _, _, _, _, _, _ => malformed
         end
     | _, _ => malformed
     end
@@ -564,8 +600,8 @@ Definition check_C03 (kind : string) (input output : J) : verdict :=
                   let raw := cs_chain cst in
                   let term := cs_tag cst in
                   let ru := map op_uid (chain_ops raw) in
-                  let ex := chain_exact raw in
-                  let c := judge_common term raw parts ds ois os in
+                  let ex := cmp_of steps in
+                  let c := judge_common ex term raw parts ds ois os in
                   let mplan := optimise raw in
                   let agree_extra :=
                       desc_eqb (map (desc_of ru) mplan) plan_d
@@ -581,7 +617,7 @@ Definition check_C03 (kind : string) (input output : J) : verdict :=
                          | [so; _; po; _] => obs_agree ex so cs && obs_agree ex po cp
                          | _ => false
                          end in
-                  finish c agree_extra prop_extra (sem_prop term raw os [])
+                  finish c agree_extra prop_extra (sem_prop ex (fun _ => ex) term raw os [])
                 else malformed
             | _, _, _ => malformed
             end
